@@ -50,7 +50,9 @@ FIDS = {1: "C18-K1-update-during-load", 2: "C18-K2-unload-during-load", 4: "C18-
 def generate(coqdir=None):
     # the flags record of the Coq development in use (7 fields since the busy guard)
     coqdir = coqdir or os.path.join(VERIF, "coq", "C18")
-    seven = "fl_busy_guard" in open(os.path.join(coqdir, "Model.v")).read()     # 9-field flags record
+    mtxt = open(os.path.join(coqdir, "Model.v")).read()
+    seven = "fl_busy_guard" in mtxt     # 9-field flags record (or 10 with fl_load_reads_whole)
+    ten = "fl_load_reads_whole" in mtxt
 
     def work():
         m = astlib.module("klongpy/db/file_cache.py")
@@ -231,6 +233,21 @@ def generate(coqdir=None):
         if upd_guard != unl_guard:
             raise ShapeError("busy guard present in only one of update_file / unload_file")
 
+        # _load_file reads the whole file, or at most the size get_file measured before its locked block
+        lf = astlib.find_func(cls, "_load_file")
+        largs = [a.arg for a in lf.args.args]
+        reads = astlib.calls_in(lf, "read")
+        one(reads, "_load_file read()")
+        sub = one(astlib.calls_in(ast.Module(body=gif.body, type_ignores=[]), "submit"), "get_file submit")
+        sargs = [ast.unparse(a) for a in sub.args]
+        if largs == ["self", "file_name"] and not reads[0].args and sargs == ["self._load_file", "file_name"]:
+            load_whole = True
+        elif largs == ["self", "file_name", "claim"] and [ast.unparse(a) for a in reads[0].args] == ["claim"] and \
+                sargs == ["self._load_file", "file_name", "claim"]:
+            load_whole = False
+        else:
+            raise ShapeError("_load_file / submit arguments: %r %r" % (largs, sargs))
+
         # _load_file / _write_file: fs calls outside the lock, ufm last
         for nm, mode in (("_load_file", "'rb'"), ("_write_file", "'wb'")):
             fn = astlib.find_func(cls, nm)
@@ -243,7 +260,7 @@ def generate(coqdir=None):
             if not st[-2].startswith("self.update_file_futures_and_memory(file_name, memory_usage=memory_usage)") or st[-1] != "return contents":
                 raise ShapeError(nm + " tail")
         return dict(get_w=get_w, upd_w=upd_w, done_w=done_w, first=first, second=second, touch=touch_if_done, dmax=default_max,
-                    guard=upd_guard, oversize=oversize, else_heap=else_heap)
+                    guard=upd_guard, oversize=oversize, else_heap=else_heap, load_whole=load_whole)
 
     def df_retry():
         m = astlib.module("klongpy/db/df_cache.py")
@@ -275,14 +292,15 @@ def generate(coqdir=None):
     b = astlib.coq_bool
     if r is None:
         out.append("(* shape not recognised: %s *)" % why)
-        out.append("Definition gen_flags : flags := mkFlags false true false true false true%s." % (" false false false" if seven else ""))
+        out.append("Definition gen_flags : flags := mkFlags false true false true false true%s." % ((" false false true false" if ten else " false false false") if seven else ""))
         out.append("Definition shape_ok : bool := false.")
         out.append("Definition default_max_memory : Z := 0%Z.")
     else:
         out.append("Definition gen_flags : flags := mkFlags %s %s %s %s %s %s%s." % (
             b(r["get_w"]), b(r["upd_w"]), b(r["done_w"]), b(r["first"]), b(r["second"]), b(r["touch"]),
-            (" %s %s %s" % (b(r["oversize"]), b(r["else_heap"]), b(r["guard"]))) if seven else ""))
-        out.append("Definition shape_ok : bool := %s." % b(seven or not (r["guard"] or r["oversize"] or r["else_heap"])))
+            ((" %s %s %s %s" % (b(r["oversize"]), b(r["else_heap"]), b(r["load_whole"]), b(r["guard"])) if ten else
+              " %s %s %s" % (b(r["oversize"]), b(r["else_heap"]), b(r["guard"]))) if seven else "")))
+        out.append("Definition shape_ok : bool := %s." % b((seven or not (r["guard"] or r["oversize"] or r["else_heap"])) and (ten or r["load_whole"])))
         out.append("Definition default_max_memory : Z := %d%%Z." % r["dmax"])
     return "\n".join(out) + "\n"
 
@@ -916,6 +934,8 @@ def plan(chk, rng):
         # two files that do not fit together: an entry touched / written while another completion evicts
         ("getA;getB||getA-evict", (6, AB, [[g(0), g(1)], [g(0)]]), 2 if q else None, lim),
         ("getA;updA||getB-evict", (6, AB, [[g(0), u(0, U1)], [g(1)]]), 2 if q else None, lim),
+        # a get against an update to LONGER contents followed by an unload (the size taken before the lock is stale)
+        ("get||updLonger;unl", (BIG, A, [[g(0)], [u(0, U2), x(0)]]), 2, 1200 if q else 3000),
         # 3 threads x 1 op
         ("upd||upd||get", (BIG, A, [[u(0, U1)], [u(0, U2)], [g(0)]]), 1 if q else 2, lim),
         ("get||upd||unl", (BIG, A, [[g(0)], [u(0, U1)], [x(0)]]), 1 if q else 2, 200 if q else 400),
@@ -1166,7 +1186,7 @@ def _run(chk, rng, proof, work):
     import re
     mf = re.search(r"gen_flags : flags := mkFlags ((?:\w+ ?)+)\.", chk.generated_text)
     fl = mf.group(1).split() if mf else []
-    guard = len(fl) == 9 and fl[8] == "true"
+    guard = len(fl) >= 9 and fl[-1] == "true"
     chk.counters["busy_guard_in_source"] = guard
     wit = [] if guard else chk.run_model(["(witness k1torn)", "(witness k1acct)", "(witness k2)", "(witness k3)"])
     for wname, w in zip(["k1torn", "k1acct", "k2", "k3"], wit):
